@@ -203,6 +203,37 @@ theorem exhaustion_iff_full (c : Conn) (h : Inv c) (r : Nat) :
     c.map.allocate r = none ↔ ∀ id < 32768, c.map.ids.isUsed id = true := by
   rw [hallocate_none]; exact sallocate_none h.map.len
 
+/-- ORPHANED IDS ARE NOT FREE: a stream id whose caller went away stays reserved — it is outstanding at the server
+(which still owes the answer) and marked used in the bitmap — however long ago it was orphaned. -/
+theorem orphaned_ids_are_not_free (c : Conn) (h : Inv c) (s : Nat) (hs : s ∈ c.map.orphans) :
+    s ∈ srvStreams c ∧ s < 32768 ∧ c.map.ids.isUsed s = true := by
+  obtain ⟨hstr, _⟩ := h.map.orphSrv s hs
+  obtain ⟨⟨s', r'⟩, hm, e⟩ := List.mem_map.mp hstr
+  simp only at e; subst e
+  exact ⟨hstr, h.map.srvUsed _ r' hm⟩
+
+/-- … so `allocate` never hands out an orphaned id (nor any id the server still owes an answer on) … -/
+theorem allocate_never_hands_out_an_owed_id (c : Conn) (h : Inv c) (r id : Nat) (map' : HMap)
+    (ha : c.map.allocate r = some (id, map')) : id ∉ c.map.orphans ∧ id ∉ srvStreams c := by
+  obtain ⟨ids', hids, _⟩ := hallocate_some ha
+  have hfree := (sallocate_some h.map.len hids).2.1
+  have hns : id ∉ srvStreams c := by
+    intro hm
+    obtain ⟨⟨s', r'⟩, hm2, e⟩ := List.mem_map.mp hm
+    simp only at e; subst e
+    rw [(h.map.srvUsed _ r' hm2).2] at hfree; cases hfree
+  exact ⟨fun ho => hns (orphaned_ids_are_not_free c h id ho).1, hns⟩
+
+/-- … and when every one of the 32768 ids is outstanding — answered by nobody yet, abandoned (orphaned) or not, for
+however long — exhaustion is the ONLY outcome of `allocate`: there is no "oldest orphan" to take. -/
+theorem exhaustion_when_every_id_is_owed (c : Conn) (h : Inv c) (r : Nat)
+    (hall : ∀ id, id < 32768 → id ∈ srvStreams c) : c.map.allocate r = none := by
+  rw [exhaustion_iff_full c h r]
+  intro id hid
+  obtain ⟨⟨s', r'⟩, hm, e⟩ := List.mem_map.mp (hall id hid)
+  simp only at e; subst e
+  exact (h.map.srvUsed _ r' hm).2
+
 /-- Used ids are exactly the ids owed by the server in every reachable state; so exhaustion means 32768
 unanswered requests. (Direction needed here: outstanding ⇒ used is `Inv.map.srvUsed`.) -/
 theorem exhausted_caller_gets_error (c : Conn) (r : Nat) (q : List Nat) (hb : c.broken = false)
@@ -244,7 +275,7 @@ theorem permits_go_to_parked_callers (evs : List SEv) :
 theorem submit_takes_a_free_slot (s : Sched) (hb : s.c.broken = false)
     (hroom : s.c.queue.length + s.granted.length < 1024) :
     (sstep s .submit).c.queue = s.c.queue ++ [s.c.nextReq] ∧ (sstep s .submit).c.sending = s.c.sending := by
-  have hn : ¬ s.c.queue.length + s.granted.length ≥ chanCap := by unfold chanCap; omega
+  have hn : ¬ s.c.queue.length + s.granted.length ≥ chanCap := by show ¬ _ ≥ 1024; omega
   simp only [sstep, hn, if_false]
   obtain ⟨hq, hs, _⟩ := submit_qs hb
   exact ⟨hq, hs⟩
@@ -276,7 +307,7 @@ theorem submits_fill (k : Nat) (hk : k ≤ 1024) :
         (srun Sched.init (List.replicate n .submit)).granted.length < 1024 := by rw [hq, hg]; simp; omega
     obtain ⟨hq', hs'⟩ := submit_takes_a_free_slot _ hb hroom
     have hn : ¬ (srun Sched.init (List.replicate n .submit)).c.queue.length +
-        (srun Sched.init (List.replicate n .submit)).granted.length ≥ chanCap := by unfold chanCap; omega
+        (srun Sched.init (List.replicate n .submit)).granted.length ≥ chanCap := by show ¬ _ ≥ 1024; omega
     refine ⟨by rw [hq']; simp [hq], ?_, by rw [hs', hs], ?_⟩
     · simp only [sstep, hn, if_false, stamp, (submit_qs hb).2.2, Bool.false_eq_true]
       exact hg
@@ -340,13 +371,25 @@ theorem orphan_threshold_breaks (s : Sched) (h : SInv s) (hb : s.c.broken = fals
 
 /-- … and 1024 or fewer do not: the tick changes nothing. -/
 theorem orphan_threshold_quiet (s : Sched) (hold : oldOrphans s ≤ 1024) : sstep s .orphanTick = s := by
-  have hold' : ¬ oldOrphans s > orphanLimit := by unfold orphanLimit; omega
+  have hold' : ¬ oldOrphans s > orphanLimit := by show ¬ _ > 1024; omega
   simp only [sstep, hold', if_false]
   split <;> rfl
 
-/-- An id counts as an old orphan only once a full second has passed since it was orphaned. -/
+/-- An id counts as an old orphan only once a full second has passed since it was orphaned — strictly more than a
+second, or exactly a second on a stream id other than 32767 (the `BTreeSet` range `..(now - 1 s, i16::MAX)` of the
+code is exclusive at its upper end). -/
 theorem old_orphans_are_a_second_old (s : Sched) :
-    oldOrphans s = (s.ages.filter (fun p => p.2 + 1000 ≤ s.clock)).length := rfl
+    oldOrphans s = (s.ages.filter (fun p =>
+      decide (p.2 + 1000 < s.clock) || (decide (p.2 + 1000 = s.clock) && decide (p.1 < 32767)))).length := rfl
+
+/-- THE CONSTANTS are the code's: the capacity of the submit channel, the orphan count and age thresholds are
+re-extracted from `connection.rs` on every run (`Generated/Constants.lean`), the model uses the extracted values, and
+they are 1024 / 1024 / 1 s; the verification hook's own submit channel (`connection_verif.rs`) has the capacity of the
+production one. -/
+theorem channel_capacity_is_1024 :
+    chanCap = 1024 ∧ ScyllaVerif.Generated.submitChannelCapacity = 1024 ∧
+    ScyllaVerif.Generated.hookSubmitChannelCapacity = ScyllaVerif.Generated.submitChannelCapacity ∧
+    orphanLimit = 1024 ∧ orphanAge = 1000 := ⟨rfl, rfl, rfl, rfl, rfl⟩
 
 /-- non-vacuity: request 0 is written and abandoned at time 0; after 999 ms it does not count, after 1000 ms it
 does; its answer removes it again. -/
